@@ -671,6 +671,12 @@ def semantic_key(p):
     return "result-differs:%s" % (p["k"] if p["k"] != "insert" else "insert-" + p["mode"])
 
 
+def norm_row(row):
+    """Row as a comparable text: floats to 12 significant digits and -0.0 as 0.0 - the library writes a*(b*c) as a*b*c, which
+    is the same number up to the last bit and the sign of a zero."""
+    return repr(tuple((float("%.12g" % v) + 0.0) if isinstance(v, float) else v for v in row))
+
+
 def run_case(case, mon):
     rnd = random.Random("C03case:" + case["s"])
     g = G(rnd)
@@ -736,12 +742,12 @@ def run_case(case, mon):
                         continue
                     if ordered:
                         mon.count("ordered_sequences_compared")
-                        if r1 != r2:
+                        if list(map(norm_row, r1)) != list(map(norm_row, r2)):
                             mon.violation(semantic_key(p) + ":order", "different row sequence on generated database %d under a total ORDER BY: rendered %r -> %r ; reference %r -> %r" % (
                                 i, sql[:300], r1[:4], ref[:300], r2[:4]), {"program": p, "sql": sql, "ref": ref})
                             return
                         continue
-                    if sorted(map(repr, r1)) != sorted(map(repr, r2)):
+                    if sorted(map(norm_row, r1)) != sorted(map(norm_row, r2)):
                         mon.violation(semantic_key(p), "different rows on generated database %d: rendered %r -> %r ; reference %r -> %r" % (
                             i, sql[:300], r1[:4], ref[:300], r2[:4]), {"program": p, "sql": sql, "ref": ref})
                         return
